@@ -157,3 +157,19 @@ def interFold (pol : σ → σ → σ) (seedHash : Nat) : Inter σ → List (Com
     | some i' => interFold pol seedHash i' rest
 
 end DS.Theta
+
+namespace DS.Theta
+
+/-- the two set expressions `jaccard()` evaluates: the union of A and B and the intersection of A, B and that union -/
+def jaccardParts (c : Cfg) (sh : Nat) (a b : Compact Unit) : Option (Compact Unit × Compact Unit) :=
+  match unionFold c (fun _ _ => ()) sh (unionInit c) [a, b] with
+  | none => none
+  | some u =>
+    let uab := unionResult c u false sh
+    match interFold (fun _ _ => ()) sh interInit [a, b, uab] with
+    | none => none
+    | some i => match interResult i false sh with
+      | none => none
+      | some r => some (uab, r)
+
+end DS.Theta
